@@ -30,7 +30,7 @@ ASSUMPTIONS = [
 ]
 TRUSTED = ["xlate (syn-based extractor of GcManaged impls)"]
 
-PROFILES = ["alloc", "closures", "classes", "exceptions", "fibers", "iteration", "data", "control", "expr"]
+PROFILES = ["alloc", "closures", "classes", "exceptions", "fibers", "iteration", "data", "control", "expr", "typed", "typed-try"]
 
 
 def uaf_signature(uaf):
